@@ -52,6 +52,7 @@ class Cfg:
     col_width_range: tuple | None = None  # page col_width drawn from this range (inches)
     group_by_p: int = 3                   # out of 10
     noncontig: float = 0.0                # probability that group_by keys are made non-contiguous
+    convert_per_column: bool = False      # text_convert given per ORIGINAL column; trigger characters only where it is off
 
 
 def _txt(cfg: Cfg, max_size=8):
@@ -367,10 +368,20 @@ def table_section(draw, cfg: Cfg, sec_index=0, multi=False):
                 v = cols[j]["values"]
                 v[a], v[b] = v[b], v[a]
     first_plain = True
+    flags = None
+    if cfg.convert_per_column:
+        flags = [draw(st.booleans()) for _ in range(ncol)]
+        body["text_convert"] = flags
     for j in range(ncol):
         if cols[j] is None:
             dtype = "str" if (cfg.force_str_first_plain and first_plain) else None
-            c = draw(plain_column(cfg, j, n, dtype=dtype))
+            cfg_j = cfg
+            if flags is not None and not flags[j]:
+                cfg_j = replace(cfg, alphabet=ALPHA_CONVERT_OFF)
+                dtype = "str"
+            c = draw(plain_column(cfg_j, j, n, dtype=dtype))
+            if cfg_j is not cfg:
+                c["values"] = [v if v is None else v + draw(st.sampled_from(["", "^2", "_10", ">=1", "<=x", "m^2_i"])) for v in c["values"]]
             c["name"] = names[j]
             cols[j] = c
             first_plain = False
